@@ -91,25 +91,36 @@ let show_fout = function
 let is_file store = String.length store = 6 && String.sub store 0 4 = "file"
 let file_stepper store = file_step true (store.[4] = '1') (store.[5] = '1')
 
+(* third component: the files the model expects on disk after the history -- file store:
+   working-directory path = hash,length of the regular files; OCI store: blob file = hash,length *)
+let show_disk l = "K:" ^ String.concat ";" (List.sort compare l)
 let run_store store ops =
   if is_file store then begin
-    let (_, outs) = runf (file_stepper store) file_init ops in
-    let l = List.map show_fout outs in (l, l)
+    let (st, outs) = runf (file_stepper store) file_init ops in
+    let l = List.map show_fout outs in
+    (* the abstract specification (C06_refines_file) speaks about histories without the aliasing
+       name 5, as a descriptor's name or as the title of a successor *)
+    let alias_free = List.for_all (function
+        | Push (d, c) -> ii (d_name d) <> 5 && List.for_all (fun (_, n) -> ii n <> 5) (c.b_tl @ c.b_pre_tl)
+        | _ -> true) ops in
+    let sl = if alias_free then List.map show_fout (snd (runf (fspec_step (store.[4] = '1')) fspec_init ops)) else l in
+    (l, sl, show_disk (List.map (fun (p, c) -> Printf.sprintf "%d=%d,%d" (ii p) (ii c.b_hash) (ii c.b_len)) st.f_disk))
   end else
   match store with
   | "mem" ->
     let (_, outs) = run mem_step mem_init ops in
     let (_, souts) = run mspec_step mspec_init ops in
-    (List.map show_out outs, List.map show_out souts)
+    (List.map show_out outs, List.map show_out souts, "K:")
   | "oci" ->
     let u = build_u ops in
-    let (_, outs) = run oci_step oci_init ops in
+    let (st, outs) = run oci_step oci_init ops in
     (* the specification is stated for canonical histories (one descriptor per digest) *)
     let canonical = List.for_all (function
         | Push (d, _) | Fetch d | Exists d | Preds d | Delete d | Tag (d, _) -> gkey_eqb (gk d) (u d.d_dig)
         | _ -> true) ops in
     let (_, souts) = if canonical then run (ospec_step u) ospec_init ops else ((), outs) |> fun (_, o) -> (ospec_init, o) in
-    (List.map show_out outs, List.map show_out souts)
+    (List.map show_out outs, List.map show_out souts,
+     show_disk (List.map (fun (g, c) -> Printf.sprintf "%d=%d,%d" (ii g) (ii c.b_hash) (ii c.b_len)) st.o_blobs))
   | _ -> failwith "store"
 
 (* ---- serialisability search over the extracted sequential model ----
@@ -133,8 +144,9 @@ let read_only = function Fetch _ | Exists _ | Resolve _ | Preds _ | Tags -> true
 (* [constrained o]: the observed output of this concurrent operation must be the one the
    sequential model gives at its place in the order (operations whose result is decided at
    one atomic step: everything but Predecessors on the memory store, Push on the file
-   store).  Unconstrained read-only operations are dropped from the search. *)
-let serialisable (type s) ?(constrained : op -> bool = fun _ -> false)
+   store; reads of monotone or atomically updated maps -- Fetch/Exists/Resolve on the file store,
+   Exists/Fetch/Resolve-by-name on the OCI store: the theorems C06_reads_linearisable_memory, _oci, _file).  Unconstrained read-only operations are dropped from the search. *)
+let serialisable (type s) ?(constrained : op -> bool = fun _ -> false) ?(fin : s -> bool = fun _ -> true)
     (step : s -> op -> s * string) (init : s) (repr : s -> string)
     (evs : ev array) (probe : ev list) : bool =
   let evs = Array.of_list (List.filter (fun e -> constrained e.o || not (read_only e.o)) (Array.to_list evs)) in
@@ -143,7 +155,7 @@ let serialisable (type s) ?(constrained : op -> bool = fun _ -> false)
   let seen = Hashtbl.create 1024 in
   let leaf (st : s) =
     let rec chk st = function
-      | [] -> true
+      | [] -> fin st
       | e :: tl -> let (st', shown) = step st e.o in shown = e.obs && chk st' tl in
     chk st probe in
   let rec go (st : s) (k : int) : bool =
@@ -191,18 +203,31 @@ let () =
     match List.filter (fun t -> t.[0] <> '#') (split_ws l) with
     | id :: "seq" :: store :: toks ->
       (try
+         (* a final token K asks for the expected on-disk files as one more output *)
+         let want_disk = (match List.rev toks with "K" :: _ -> true | _ -> false) in
+         let toks = if want_disk then List.rev (List.tl (List.rev toks)) else toks in
          let ops = List.map parse_op toks in
-         let (outs, souts) = run_store store ops in
-         Printf.printf "%s %s%s\n" id (String.concat "|" outs) (if outs = souts then "" else " SPECDIFF " ^ String.concat "|" souts)
+         let (outs, souts, disk) = run_store store ops in
+         let tail = if want_disk then [disk] else [] in
+         Printf.printf "%s %s%s\n" id (String.concat "|" (outs @ tail)) (if outs = souts then "" else " SPECDIFF " ^ String.concat "|" souts)
        with Failure m -> Printf.printf "%s BADCASE %s\n" id m)
     | id :: "lin" :: store :: nprobe :: toks ->
       (try
+         (* a final token K=<files> is the observed on-disk state at quiescence: the sequential
+            order must end with exactly these files *)
+         let (toks, disk_obs) = (match List.rev toks with
+           | last :: rest when String.length last >= 2 && String.sub last 0 2 = "K=" ->
+             (List.rev rest, Some (String.sub last 2 (String.length last - 2)))
+           | _ -> (toks, None)) in
+         let disk_ok shown = (match disk_obs with None -> true | Some o -> shown = "K:" ^ o) in
          let all = List.map parse_ev toks in
          let (conc, probe) = split_at (List.length all - int_of_string nprobe) all in
          let evs = Array.of_list conc in
          let ok =
            if is_file store then
-             serialisable ~constrained:(function Push _ -> true | _ -> false) (fun s o -> let (s', x) = file_stepper store s o in (s', show_fout x)) file_init
+             serialisable ~constrained:(function Push _ | Fetch _ | Exists _ | Resolve _ -> true | _ -> false)
+               ~fin:(fun s -> disk_ok (show_disk (List.map (fun (p, c) -> Printf.sprintf "%d=%d,%d" (ii p) (ii c.b_hash) (ii c.b_len)) s.f_disk)))
+               (fun s o -> let (s', x) = file_stepper store s o in (s', show_fout x)) file_init
                (fun s -> String.concat "," (List.map (fun n -> string_of_int (ii n)) (List.sort compare s.f_names)) ^ "#" ^
                          String.concat "," (List.sort compare (List.map (fun (g, p) -> Printf.sprintf "%d>%d" (ii g) (ii p)) s.f_d2p)) ^ "#" ^
                          show_content_mem s.f_cas ^ "#" ^ show_tags s.f_res.r_index ^ "#" ^ show_graph s.f_graph ^ "#" ^
@@ -215,7 +240,11 @@ let () =
                (fun s o -> let (s', x) = mem_step s o in (s', show_out x)) mem_init
                (fun s -> let a = mem_abs s in show_content_mem a.sp_content ^ "#" ^ show_tags a.sp_tags ^ "#" ^ show_graph s.m_graph) evs probe
            | "oci" ->
-             serialisable (fun s o -> let (s', x) = oci_step s o in (s', show_out x)) oci_init
+             (* content-map reads are atomic (stat/open of a blob file that appears by rename and
+                disappears only under the exclusive lock): C06_reads_linearisable_oci *)
+             serialisable ~constrained:(function Exists _ | Fetch _ | Resolve (RName _) -> true | _ -> false)
+               ~fin:(fun s -> disk_ok (show_disk (List.map (fun (g, c) -> Printf.sprintf "%d=%d,%d" (ii g) (ii c.b_hash) (ii c.b_len)) s.o_blobs)))
+               (fun s o -> let (s', x) = oci_step s o in (s', show_out x)) oci_init
                (fun s -> let a = oci_abs s in show_content_oci a.sp_content ^ "#" ^ show_tags a.sp_tags ^ "#" ^ show_graph s.o_graph) evs probe
            | _ -> failwith "store" in
          Printf.printf "%s LIN %s\n" id (if ok then "ok" else "fail")
